@@ -276,7 +276,7 @@ static void mode_rot() {
         }
         M.ev("rot_applications");
         M.ev("rot_cells_compared", checked);
-        if (checked) M.sig(vh::hmix(vh::hmix(n, it), (uint64_t)(angle * 1e9)));
+        if (checked) M.sig(vh::hmix(vh::hmix(n, it), (uint64_t)(int64_t)(angle * 1e9)));
         { vh::J s; s.s("class", "rot").i("n", n).i("order", it).n("angle", angle).i("cells_checked", checked); M.sample(s.str()); }
     }
 }
